@@ -19,9 +19,19 @@ for sid in ids:
     if not os.path.exists(patch):
         continue
     prop = sid.split("-")[0]
-    p = subprocess.run([os.path.join(V, "bin/try_patch.sh"), patch, prop], stdout=subprocess.PIPE, stderr=subprocess.STDOUT, text=True)
-    out = p.stdout
-    viol = [l for l in out.split("\n") if l.startswith("VIOLATION")]
+    # seeded/<id>/detect_with (optional): further properties whose checks are tried when the seed's own check
+    # passes (a change seeded for one property may break a sibling property, whose check then reports it)
+    tryprops = [prop]
+    dw = os.path.join(d, "detect_with")
+    if os.path.exists(dw):
+        tryprops += open(dw).read().split()
+    for cp in tryprops:
+        p = subprocess.run([os.path.join(V, "bin/try_patch.sh"), patch, cp], stdout=subprocess.PIPE, stderr=subprocess.STDOUT, text=True)
+        out = p.stdout
+        viol = [l for l in out.split("\n") if l.startswith("VIOLATION")]
+        if viol:
+            break
+    checked_prop = cp
     summary = [l for l in out.split("\n") if re.match(r"C\d\d quick:", l)]
     replay = None
     if viol:
@@ -40,7 +50,8 @@ for sid in ids:
         needs_to_manifest=first_para(os.path.join(d, "notes.md"), "needs") or "see notes.md",
         produced_by="independent sub-agent given only the property text and a scratch worktree (nothing from /verif)",
         confirmed_by=["bin/confirm_seed.sh: demo_test.go fails with patch.diff applied, passes on the clean tree; existing suite passes with the patch (cluster tests run in a private network namespace, flaky ones retried)"],
-        check_run=f"bin/try_patch.sh seeded/{sid}/patch.diff {prop}   (git apply, bin/check {prop} quick, git checkout)",
+        check_run=f"bin/try_patch.sh seeded/{sid}/patch.diff {checked_prop}   (git apply, bin/check {checked_prop} quick, git checkout)",
+        detected_by_check_of=checked_prop if viol else None,
         detected=bool(viol),
         detected_with_concrete_input=bool(viol) and not any("no-failing-input-found" in v for v in viol),
         violation_lines=viol[:3], check_summary=summary[-1] if summary else "", replay=replay,
